@@ -37,6 +37,7 @@ def run(ctx):
     ctx.do(rule_granularity)
     ctx.do(rule_strict_compare)
     ctx.do(rule_clock)
+    ctx.do(rule_version_chain)
     # "strictly newer" compares instants: no re-labelling of time zones on the way (C15.utc clause)
     from . import C15
     ctx.do(C15.rule_no_relabel, rule_id="C05.instants-not-relabelled")
@@ -478,3 +479,92 @@ def rule_clock(ctx):
               file=gt.module.relpath, line=gt.node.lineno, function=gt.qualname, expected="STIXdatetime.now(tz=pytz.UTC)",
               found=short(rets[0]) if rets else None)
     run.extra["versioning_functions"] = n
+
+
+def rule_version_chain(ctx):
+    """The granularity of the nudge and the precision rule of `modified` are chosen by the spec version new_version() is told
+    by _check_versionable_object().  That answer is a chain of three functions; at every link the version that is handed back
+    is the one detected, never a constant or another value: _get_stix_version (class -> its version, dictionary ->
+    detect_spec_version), _is_versionable_type (second element of the pair), _check_versionable_object (every normal path)."""
+    run = ctx.run
+    prog = ctx.prog
+    R = "C05.granularity"
+    n = 0
+
+    def defs_of(fi, name):
+        out = []
+        for a_ in body_walk(fi.node):
+            if isinstance(a_, ast.Assign):
+                for t in a_.targets:
+                    if isinstance(t, ast.Name) and t.id == name:
+                        out.append((a_, a_.value, None))
+                    elif isinstance(t, ast.Tuple):
+                        for j_, e_ in enumerate(t.elts):
+                            if isinstance(e_, ast.Name) and e_.id == name:
+                                out.append((a_, a_.value, j_))
+        return out
+
+    def is_call(v, fname, arg):
+        return isinstance(v, ast.Call) and call_simple_name(v) == fname and len(v.args) == 1 and norm(v.args[0]) == arg
+
+    # 1. _get_stix_version
+    gv = prog.func(V + "::_get_stix_version")
+    rel = gv.module.relpath
+    rets = returns_of(gv)
+    ok = bool(rets) and all(isinstance(r.value, ast.Name) for r in rets)
+    found = []
+    if ok:
+        nm = rets[0].value.id
+        for a_, v, j_ in defs_of(gv, nm):
+            found.append(short(a_, 60))
+            if isinstance(v, ast.Constant) and v.value is None and not guard_chain(a_):
+                continue
+            gs = " & ".join(norm(t) for t, pol, _ in guard_chain(a_) if pol)
+            if isinstance(v, ast.Constant) and v.value in ("2.0", "2.1"):
+                want = "_STIXBase20" if v.value == "2.0" else "_STIXBase21"
+                ok = ok and ("isinstance(%s, " % gv.params[0]) in gs and want in gs.split("&")[-1]
+            elif is_call(v, "detect_spec_version", gv.params[0]):
+                ok = ok and "dict" in gs
+            else:
+                ok = False
+    n += 1
+    run.check(ok, R, key(rel, gv.qualname, "version-of-the-data"),
+              "the version a new version is computed under is not the one of the data (2.0 class -> '2.0', 2.1 class -> '2.1', "
+              "dictionary -> detect_spec_version)", file=rel, line=gv.node.lineno, function=gv.qualname,
+              expected="'2.0' under isinstance(data, _STIXBase20), '2.1' under _STIXBase21, detect_spec_version(data) for a dict", found=found)
+    # 2. _is_versionable_type: every return is (flag, <name>) and the name is None or _get_stix_version(data)
+    iv = prog.func(V + "::_is_versionable_type")
+    rets = returns_of(iv)
+    ok = bool(rets) and all(isinstance(r.value, ast.Tuple) and len(r.value.elts) == 2 and isinstance(r.value.elts[1], ast.Name) for r in rets)
+    found = [short(r, 60) for r in rets]
+    if ok:
+        for r in rets:
+            for a_, v, j_ in defs_of(iv, r.value.elts[1].id):
+                if not ((isinstance(v, ast.Constant) and v.value is None) or is_call(v, "_get_stix_version", iv.params[0])):
+                    ok = False
+                    found.append(short(a_, 60))
+    n += 1
+    run.check(ok, R, key(rel, iv.qualname, "version-handed-back"),
+              "_is_versionable_type() does not hand back the detected version as the second element of its answer: a dictionary "
+              "is then versioned under the other version's rules (granularity of the nudge, precision of `modified`)", file=rel,
+              line=iv.node.lineno, function=iv.qualname, expected="return is_versionable, stix_version  (stix_version = _get_stix_version(data))",
+              found=found)
+    # 3. _check_versionable_object: returns a name bound to _get_stix_version(data) or to the pair's second element
+    cv = prog.func(V + "::_check_versionable_object")
+    rets = returns_of(cv)
+    ok = bool(rets) and all(isinstance(r.value, ast.Name) for r in rets)
+    found = [short(r, 60) for r in rets]
+    if ok:
+        for r in rets:
+            ds = defs_of(cv, r.value.id)
+            ok = ok and bool(ds)
+            for a_, v, j_ in ds:
+                if not ((j_ is None and is_call(v, "_get_stix_version", cv.params[0])) or (j_ == 1 and is_call(v, "_is_versionable_type", cv.params[0]))):
+                    ok = False
+                    found.append(short(a_, 60))
+    n += 1
+    run.check(ok, R, key(rel, cv.qualname, "version-handed-back"),
+              "_check_versionable_object() does not return the detected version on every path", file=rel, line=cv.node.lineno,
+              function=cv.qualname, expected="stix_version = _get_stix_version(data) | _, stix_version = _is_versionable_type(data); return stix_version",
+              found=found)
+    return n
